@@ -9,6 +9,10 @@
 //!   `g:<k>`       release connection k's accept (it registers)
 //!   `c:<id>`      connect without pausing
 //!   `n:<id>:<k|->`  the embedder calls `Clients::disconnect(id, Some(conn id of k) | None)`
+//!   `N:<id>:<k|->:<j|->`  two requests BACK TO BACK: `disconnect(id, o1)` immediately followed by
+//!                 `disconnect(id, o2)`, no await in between (the connections cancelled by the first
+//!                 are still in the registry when the second is made); the wait for the named
+//!                 connections to leave comes after both.  ret = 10 + 2*found1 + found2
 //!   `p:<k>`       probe: is k served?  (ping answered AND a datagram it sends reaches the observer)
 //!   `f:<k>`       pile up traffic for k's endpoint: two flooder clients keep sending it 32 kB
 //!                 datagrams while every client of that endpoint reads slowly (4 ms per datagram),
@@ -65,6 +69,7 @@ enum Op {
     Release(u64),
     Connect(u64),
     Disc(u64, Option<u64>),
+    Disc2(u64, Option<u64>, Option<u64>),
     Probe(u64),
     Flood(u64),
 }
@@ -76,6 +81,11 @@ impl Op {
             Op::Release(k) => format!("g:{k}"),
             Op::Connect(id) => format!("c:{id}"),
             Op::Disc(id, o) => format!("n:{id}:{}", o.map_or("-".into(), |c| c.to_string())),
+            Op::Disc2(id, a, b) => format!(
+                "N:{id}:{}:{}",
+                a.map_or("-".into(), |c| c.to_string()),
+                b.map_or("-".into(), |c| c.to_string())
+            ),
             Op::Probe(k) => format!("p:{k}"),
             Op::Flood(k) => format!("f:{k}"),
         }
@@ -86,6 +96,9 @@ impl Op {
             Op::Release(k) => format!("C08.ORelease {k}"),
             Op::Connect(id) => format!("C08.OConnect {id}"),
             Op::Disc(id, o) => format!("C08.ODisc {id} {}", coq_opt(*o, |c| c.to_string())),
+            Op::Disc2(id, a, b) => {
+                format!("C08.ODisc2 {id} {} {}", coq_opt(*a, |c| c.to_string()), coq_opt(*b, |c| c.to_string()))
+            }
             Op::Probe(k) => format!("C08.OProbe {k}"),
             Op::Flood(k) => format!("C08.OFlood {k}"),
         }
@@ -103,6 +116,11 @@ impl Op {
             "g" => Op::Release(n(1)),
             "c" => Op::Connect(id(1)),
             "n" => Op::Disc(id(1), if p[2] == "-" { None } else { Some(n(2)) }),
+            "N" => Op::Disc2(
+                id(1),
+                if p[2] == "-" { None } else { Some(n(2)) },
+                if p[3] == "-" { None } else { Some(n(3)) },
+            ),
             "p" => Op::Probe(n(1)),
             "f" => Op::Flood(n(1)),
             _ => panic!("bad op {tok}"),
@@ -135,7 +153,18 @@ fn generate(rng: &mut Rng, i: u64, _n: u64) -> String {
                 if rng.chance(1, 4) && (k as usize) < parked.len() && !parked[k as usize] {
                     ops.push(Op::Flood(k));
                 }
-                Op::Disc(id, if rng.chance(1, 2) { Some(k) } else { None })
+                if rng.chance(1, 3) {
+                    // two requests back to back: by connection then by endpoint, by endpoint then
+                    // by connection, twice by endpoint, two connections
+                    match rng.below(7) {
+                        0..=2 => Op::Disc2(id, Some(k), None),
+                        3 | 4 => Op::Disc2(id, None, Some(k)),
+                        5 => Op::Disc2(id, None, None),
+                        _ => Op::Disc2(id, Some(k), Some(any(rng))),
+                    }
+                } else {
+                    Op::Disc(id, if rng.chance(1, 2) { Some(k) } else { None })
+                }
             }
             9..=11 if n > 0 => {
                 let k = any(rng);
@@ -481,6 +510,41 @@ impl World {
         served
     }
 
+    /// issues the requests `disconnect(id, o)` for every `o` of `reqs` one right after the other —
+    /// no await between the calls — and only then waits for the named connections to go
+    async fn disconnects(&mut self, id: u64, reqs: &[Option<u64>]) -> (Vec<bool>, Vec<u64>) {
+        let clients = self.clients().clone();
+        // the connections the requests name (by connection id: that one; by endpoint id: every
+        // connection of the endpoint) that are registered — active or inactive — at this moment
+        let named: Vec<(u64, ConnectionId)> = self
+            .conns
+            .iter()
+            .enumerate()
+            .filter(|(k, h)| h.eid == id && reqs.iter().any(|o| o.is_none_or(|x| x == *k as u64)))
+            .map(|(k, h)| (k as u64, h.cid))
+            .filter(|(_, c)| c08::is_registered(&clients, *c))
+            .collect();
+        let eid = self.secrets[id as usize].public();
+        let calls: Vec<Option<ConnectionId>> = reqs.iter().map(|o| o.map(|k| self.conns[k as usize].cid)).collect();
+        let mut rs = Vec::with_capacity(calls.len());
+        for conn in calls {
+            rs.push(clients.disconnect(eid, conn));
+        }
+        // shutdown is asynchronous: their actors see the cancelled token, leave the loop and
+        // unregister.  Give them until the deadline; then record which of them are still
+        // registered AND still served.
+        wait_until(GONE, || named.iter().all(|(_, c)| !c08::is_registered(&clients, *c))).await;
+        let mut still = vec![];
+        for (k, c) in &named {
+            if c08::is_registered(&clients, *c) && self.probe(*k).await {
+                still.push(*k);
+            }
+        }
+        // the requests have been served: the piled-up traffic stops, everybody reads again
+        self.stop_flood();
+        (rs, still)
+    }
+
     async fn exec(&mut self, op: &Op) -> (u64, Vec<u64>) {
         let n = self.conns.len() as u64;
         match op {
@@ -500,37 +564,18 @@ impl World {
                 (1, vec![])
             }
             Op::Disc(id, o) => {
-                let conn = match o {
-                    None => None,
-                    Some(k) if *k < n => Some(self.conns[*k as usize].cid),
-                    Some(_) => return (0, vec![]),
-                };
-                let clients = self.clients().clone();
-                // the connections the request names (by connection id: that one; by endpoint id:
-                // every connection of the endpoint) that are registered — active or inactive —
-                // at this moment
-                let named: Vec<(u64, ConnectionId)> = self
-                    .conns
-                    .iter()
-                    .enumerate()
-                    .filter(|(k, h)| h.eid == *id && o.is_none_or(|x| x == *k as u64))
-                    .map(|(k, h)| (k as u64, h.cid))
-                    .filter(|(_, c)| c08::is_registered(&clients, *c))
-                    .collect();
-                let r = clients.disconnect(self.secrets[*id as usize].public(), conn);
-                // shutdown is asynchronous: their actors see the cancelled token, leave the loop
-                // and unregister.  Give them until the deadline; then record which of them are
-                // still registered AND still served.
-                wait_until(GONE, || named.iter().all(|(_, c)| !c08::is_registered(&clients, *c))).await;
-                let mut still = vec![];
-                for (k, c) in &named {
-                    if c08::is_registered(&clients, *c) && self.probe(*k).await {
-                        still.push(*k);
-                    }
+                if o.is_some_and(|k| k >= n) {
+                    return (0, vec![]);
                 }
-                // the request has been served: the piled-up traffic stops, everybody reads again
-                self.stop_flood();
-                (1 + u64::from(r), still)
+                let (rs, still) = self.disconnects(*id, &[*o]).await;
+                (1 + u64::from(rs[0]), still)
+            }
+            Op::Disc2(id, a, b) => {
+                if a.is_some_and(|k| k >= n) || b.is_some_and(|k| k >= n) {
+                    return (0, vec![]);
+                }
+                let (rs, still) = self.disconnects(*id, &[*a, *b]).await;
+                (10 + 2 * u64::from(rs[0]) + u64::from(rs[1]), still)
             }
             Op::Flood(k) => {
                 if *k >= n || self.conns[*k as usize].eid >= NIDS {
